@@ -117,6 +117,11 @@ func (r *Reader) readBlock() error {
 func (r *Reader) Read(p []byte) (n int, err error) {
 	if r.pos >= int64(len(r.data)) {
 		if err := r.readBlock(); err != nil {
+			// Nothing of a block that failed to load may be handed out by
+			// the following calls: the buffer holds zeroes sized by the
+			// rejected header, or still the previous block.
+			r.data = r.data[:0]
+			r.pos = 0
 			return 0, errors.Wrap(err, "read next block")
 		}
 	}
